@@ -85,7 +85,8 @@ def canon(o, _depth=0):
 # ---------------------------------------------------------------- payloads
 
 IDS = ["urn:c15:a", "https://example.org/sm/1?x=y&z=#frag", "urn:c15:../../etc/passwd", "urn:c15:ünï/çødé\\b c",
-       "x", "urn:c15:" + "L" * 300, "id with spaces\tand\ttabs", "urn:c15:%2F%00"]
+       "x", "urn:c15:" + "L" * 300, "id with spaces\tand\ttabs", "urn:c15:%2F%00",
+       "M" * 2000, "urn:\U0001F600:emoji", "line\nbreak\r\n", "name.json", "..", " ", "\uff26\uff35\uff2c\uff2c", "con\\aux/"]
 
 
 def make_object(kind, identifier, variant):
